@@ -56,7 +56,11 @@ func init() {
 			bg := pipe.Join(context.Background(), other)
 			synctest.Wait()
 			e.baseline = census()
-			e.teardown = append(e.teardown, func() { close(other); for range bg { } })
+			e.teardown = append(e.teardown, func() {
+				close(other)
+				for range bg {
+				}
+			})
 			return build(ctx, e)
 		}
 		if c.mode != "reuse" && c.mode != "reusenil" {
